@@ -39,6 +39,20 @@ GENERICS = {
 }
 
 
+# identifiers that are keywords are written as raw identifiers (r#type); the identifier itself - what every derive names the
+# variant after - is the word without the prefix
+KEYWORDS = {"type", "fn", "match", "loop", "async", "move", "ref", "use", "where", "while", "yield", "box", "dyn", "impl", "try", "gen"}
+
+
+def rs_ident(name):
+    return "r#" + name if name in KEYWORDS else name
+
+
+def vid(v):
+    """a variant's identifier as written in source"""
+    return rs_ident(uncp(v["id"]))
+
+
 def rs_str(cps):
     """code points -> Rust string literal"""
     out = ['"']
@@ -201,7 +215,7 @@ def print_variant(v, split, with_strum=True, indent="    "):
             lines.insert(rng.randrange(len(lines) + 1), x)
     else:
         lines = docs + strum + others
-    ident = uncp(v["id"])
+    ident = vid(v)
     if v["kind"] == "unit":
         body = ident
     elif v["kind"] == "tuple":
@@ -300,7 +314,7 @@ def turbofish(E):
 
 def pattern(E, v, bind=None):
     """match pattern for a variant; bind = list of binding names or None for wildcard"""
-    ident = "%s::%s" % (E["name"], uncp(v["id"]))
+    ident = "%s::%s" % (E["name"], vid(v))
     if v["kind"] == "unit":
         return ident
     if v["kind"] == "tuple":
@@ -325,7 +339,7 @@ def _fval(E, f, which):
 
 def ctor(E, v, which=0, vals=None):
     """constructor expression; which: 0 default payload, 1/2 non-default payloads; vals overrides"""
-    ident = "%s::%s" % (turbofish(E), uncp(v["id"]))
+    ident = "%s::%s" % (turbofish(E), vid(v))
     if v["kind"] == "unit":
         return ident
     xs = vals if vals is not None else [_fval(E, f, which) for f in v["fields"]]
